@@ -133,6 +133,17 @@ class C19(vlib.Check):
                     ops = ['new,0,' + hx(rstr(rng, tgt)), 'hexfail,0,%s,M=throw:codec_error:%s' % (hx(bad), temps),
                            'reads,0', 'set,0,' + hx(rstr(rng, 20)), 'del,0']
                     yield 'str 4 %s failat=%d@1' % (';'.join(ops), k)
+        # --- stream extraction into a string, every allocation faulted (the token's std::basic_string growth first — F
+        #     allocations of libstdc++, an oracle — then the library's own)
+        for n in (5, 15, 16, 20, 30, 31, 40, 100):
+            tok = rstr(rng, n).replace(b' ', b'_')
+            grow = 1 if n > 15 else 0      # libstdc++ appends the token in one piece (it reads up to 128 characters at a time)
+            for k in range(0, grow + 2):
+                for tgt in (3, 40):
+                    ops = ['new,0,' + hx(rstr(rng, tgt)), 'new,1,' + hx(rstr(rng, 20)),
+                           'extract,0,%s,F=%d,M=set:%s' % (hx(b'  ' + tok + b' rest'), grow, hx(tok)),
+                           'reads,0', 'set,0,' + hx(rstr(rng, 20)), 'del,0', 'del,1']
+                    yield 'str 4 %s failat=%d@2' % (';'.join(ops), k)
         # --- split: the pieces and the vector's storage are allocated in turn (std::vector is an oracle: its blocks are
         #     stood for by dummies); with at least two pieces there are at least two allocations, each of them faulted
         for size in (5, 17, 40, 90):
